@@ -4,9 +4,9 @@ from .. import model
 from . import entry as E
 
 CLAIM = dict(
-    text="Coq theorems about an executable model of the generated entry point (Model/Entry.v: Signature.extract, ArgumentAnalyzer, generate_dispatch as a generator of a mini-AST, CPython's def/binding rules, an interpreter of the mini-AST, the arity/keyword filter and empty-tuple branch of MultiTypeMap): for every set of Python-valid signatures the analyzer accepts, the required positions form a prefix and the generated def compiles (C03_required_prefix, C03_entry_compiles); for every call shape outside KF-02's class (an optional positional omitted together with a keyword argument) the interpreted body forwards exactly the supplied positionals in order, exactly the supplied keywords, and looks up a key covering exactly the supplied arguments (C03_forward_partial), and inside that class it never does (C03_forward_outside: the class is exact); every shape a registered method accepts under the documented keyword rules is bound by the generated parameter list (C03_bind_accepts) and, outside KF-02's class and for a non-empty key, passes the arity/keyword filter of that method (C03_admit_partial). The full statement is refuted on the faithful model by the KF-02 and KF-03 witnesses (C03_refuted_kw, C03_refuted_zero). The model is tied to /repo on every run: the generated source (linecache) is parsed into the mini-AST and compared with the model generator's output (translation validation), and every call shape of every generated signature set is run through the real function with identity-recording methods, a proxy recording the lookup key and the forwarded call, and compared with the model's prediction and with an independent oracle built on inspect.signature(...).bind.",
-    note="Trusted: Coq kernel, extraction, OCaml driver, the hand-written model (validated by translation validation + behaviour correspondence), CPython's def/binding semantics as modelled (validated against inspect.signature.bind on every shape), type resolution abstracted to a table (distinct priorities make the selection unambiguous). Tail-call return/raise of the generated body is observed (identity of result and exception), not proved. Partial: the full statement is false of the code (KF-02, KF-03).",
-    technique="Coq proof (invariants of the analyzer, structural lemmas on the generated AST) + translation validation of the generated source + differential behaviour correspondence with identity-recording methods",
+    text="Coq theorems about an executable model of the generated entry point (Model/Entry.v: Signature.extract, ArgumentAnalyzer with its three error cases, generate_dispatch as a generator of a mini-AST, CPython's def/binding rules, an interpreter of the mini-AST, the arity/keyword filter and empty-tuple branch of MultiTypeMap), for unbounded signature sets and call shapes: for Python-valid signatures the analyzer accepts, the required positions form a prefix and the lists generate_dispatch walks are the positions in order (C03_required_prefix), so the generated def always compiles (C03_entry_compiles); for every bound call shape outside KF-02's class (a positional omitted together with a keyword that is keyword-only or names a positional beyond the first omitted one) the interpreted body forwards exactly the supplied positionals in order, exactly the supplied keywords, and looks up a key covering exactly the supplied arguments (C03_forward_partial); inside that class some supplied keyword is always dropped from the call and the key (C03_forward_outside: the class is exact -- larger than DESIGN.md's guess, the code also forwards keywords naming the leading positionals); every shape a registered method accepts under the documented keyword rules is bound by the generated def (C03_bind_accepts) and its key passes the arity/keyword filter of that method (C03_admit_partial). The full statement is refuted on the faithful model by the KF-02 and KF-03 witnesses (C03_refuted_kw, C03_refuted_zero). Tie to /repo on every run: (i) the generated source (linecache) is parsed into the mini-AST and compared with the model generator's output, and the public signature of the dispatcher with the model's reading of the def (translation validation); (ii) every call shape of every generated signature set (positional count x keyword subset, positionals passed by keyword, functions and OvldBase methods with self, uniform/differing names, positional-only markers) runs through the real function with identity-recording methods and per-method default sentinels, a proxy recording the lookup key and the forwarded call; compared with the model's prediction (key, forwarded call, selected method, what each parameter received, error kind) and with an independent oracle built on inspect.signature(...).bind, identity of results and of exceptions raised by bodies; CPython's binding rule as modelled is compared with inspect on every shape.",
+    note="Trusted: Coq kernel, extraction, OCaml driver, the hand-written model (validated by translation validation + behaviour correspondence on every run), CPython's def/binding semantics as modelled (validated against inspect.signature.bind), type resolution abstracted to a table (distinct priorities make the selection unambiguous). Tail-call return/raise of the generated body is observed (identity of result and exception), not proved. Parameter names colliding with the generator's own identifiers are outside the model (KF-30, reproduced on the implementation only). Partial: the full statement is false of the code (KF-02, KF-03).",
+    technique="Coq proof (invariants of the analyzer, normal form of the generated AST, structural lemmas on binding and interpretation) + translation validation of the generated source + differential behaviour correspondence with identity-recording methods",
     design="6 C03")
 
 THEOREMS = ["C03_required_prefix", "C03_entry_compiles", "C03_forward_partial", "C03_forward_outside",
